@@ -2,7 +2,7 @@ CONSTANTS
   LONG = 4
   MAXCUTS = 3
   FULL3 = TRUE
-  ALLCFG = TRUE
+  ALLCFG = FALSE
 INIT Init
 NEXT Next
 INVARIANT Emit
